@@ -1,9 +1,140 @@
-(* C15 - attribute operations change only what they may, exactly as asked *)
+(* C15 - attribute operations change only what they may, exactly as asked.
+   Model: theories/AttrOps/Model.v (handlers of engine.py, consulting gen/AttrRuleTable.v regenerated from policy.py);
+   independent statement of "addressed instance / exactly / nothing else": theories/AttrOps/Spec.v. *)
 From Coq Require Import ZArith List String Bool.
 From PKGen Require Import AttrRuleTable.
-From PK Require Import AttrOps.Model AttrOps.Proofs.
+From PK Require Import AttrOps.Model AttrOps.Spec AttrOps.Proofs AttrOps.ExactProofs AttrOps.HistoryProofs AttrOps.ListLemmas.
 Import ListNotations.
+Open Scope string_scope.
+Open Scope Z_scope.
 
+(* --- the regenerated rule table marks none of the protected attributes client-modifiable or client-deletable *)
 Theorem table_protects_protected_names : forallb rule_protects protected_names = true.
 Proof. exact table_protects. Qed.
 Print Assumptions table_protects_protected_names.
+
+(* --- identifier, object type, state, owner, operation policy name, usage mask, algorithm, length, initial date of
+       every object are the same before and after any Set/Modify/DeleteAttribute request, whatever its result *)
+Theorem protected_never_change : forall v user s uid r,
+  map protected (fst (step v user s uid r)) = map protected s.
+Proof. exact step_protected. Qed.
+Print Assumptions protected_never_change.
+
+(* ... for every history of such requests *)
+Theorem protected_never_change_history : forall h s, attr_only h -> map protected (run s h) = map protected s.
+Proof. exact run_protected. Qed.
+Print Assumptions protected_never_change_history.
+
+(* ... and interleaved with arbitrary other operations: any invariant of the protected attributes those maintain survives *)
+Theorem protected_never_change_interleaved : forall (P : list _ -> Prop) h s,
+  (forall f, In (EvOther f) h -> forall s0, P (map protected s0) -> P (map protected (f s0))) ->
+  P (map protected s) -> P (map protected (run s h)).
+Proof. exact run_protected_invariant. Qed.
+Print Assumptions protected_never_change_interleaved.
+
+(* --- a successful call: the request addresses an instance (by index in 1.x, by current value in 2.0), the object
+       afterwards holds exactly the requested value there / lacks exactly that instance, everything else of the object
+       and every other object is as before *)
+Theorem success_exact : forall v user s uid r,
+  snd (step v user s uid r) = Success ->
+  exists u o o' ta,
+    uid = Some u /\ find_obj u s = Some o /\ allowed user o = true /\
+    addressed v o r = Some ta /\ meets ta o o' /\
+    only_object_changed u o o' s (fst (step v user s uid r)).
+Proof. exact step_success_exact. Qed.
+Print Assumptions success_exact.
+
+(* --- an unsuccessful call changes nothing *)
+Theorem failure_frame : forall v user s uid r e,
+  snd (step v user s uid r) = Failed e -> fst (step v user s uid r) = s.
+Proof. exact step_failure_frame. Qed.
+Print Assumptions failure_frame.
+
+Theorem failure_frame_history : forall h s, all_failed s h -> run s h = s.
+Proof. exact run_failure_frame. Qed.
+Print Assumptions failure_frame_history.
+
+(* --- objects that no request of a history addresses are untouched *)
+Theorem unaddressed_objects_untouched : forall h s k x, attr_only h ->
+  (forall v user uid r, In (EvAttr v user uid r) h -> uid <> Some (o_uid x)) ->
+  nth_error s k = Some x -> nth_error (run s h) k = Some x.
+Proof. exact run_untouched. Qed.
+Print Assumptions unaddressed_objects_untouched.
+
+(* --- positional indices after a deletion shift as list positions do *)
+Theorem index_semantics : forall v user s u o n idx,
+  is_v2 v = false -> find_obj u s = Some o ->
+  snd (step v user s (Some u) (RDelete (mkDel (Some n) idx None None))) = Success ->
+  exists f i o', mfield_of_name n = Some f /\ idx_nat idx = Some i /\ (i < List.length (mget f o))%nat /\
+    find_obj u (fst (step v user s (Some u) (RDelete (mkDel (Some n) idx None None)))) = Some o' /\
+    (forall j, nth_error (mget f o') j = if (j <? i)%nat then nth_error (mget f o) j else nth_error (mget f o) (S j)) /\
+    S (List.length (mget f o')) = List.length (mget f o).
+Proof. exact HistoryProofs.index_semantics. Qed.
+Print Assumptions index_semantics.
+
+Theorem current_value_semantics : forall v user s u o n c,
+  is_v2 v = true -> find_obj u s = Some o ->
+  snd (step v user s (Some u) (RDelete (mkDel None None (Some (Some n, c)) None))) = Success ->
+  exists f i o', mfield_of_name n = Some f /\ first_index c (mget f o) = Some i /\
+    nth_error (mget f o) i = Some c /\ (forall j x, (j < i)%nat -> nth_error (mget f o) j = Some x -> x <> c) /\
+    find_obj u (fst (step v user s (Some u) (RDelete (mkDel None None (Some (Some n, c)) None)))) = Some o' /\
+    (forall j, nth_error (mget f o') j = if (j <? i)%nat then nth_error (mget f o) j else nth_error (mget f o) (S j)).
+Proof. exact HistoryProofs.current_value_semantics. Qed.
+Print Assumptions current_value_semantics.
+
+Theorem repeated_front_deletion : forall k (l : list aval), Nat.iter k (remove_nth 0) l = skipn k l.
+Proof. exact (@iter_remove_front aval). Qed.
+Print Assumptions repeated_front_deletion.
+
+(* --- the hypotheses above are satisfiable by non-trivial states (the model really succeeds and really fails) *)
+Definition ex_key : obj :=
+  mkObj 1 2 (Some 1) "alice" "default" (Some 12) (Some 3) (Some 128) 1600000000 None
+        [VText "a"; VText "b"; VText "c"] [VText "g0"; VText "g1"] [VAsi "ns0" "d0"; VAsi "ns1" "d1"] false.
+Definition ex_other : obj :=
+  mkObj 2 8 None "bob" "default" None None None 1600000000 None [VText "x"] [] [] true.
+Definition ex_store : store := [ex_key; ex_other].
+
+Example ex_modify_1x_succeeds :
+  step (1, 2) "alice" ex_store (Some 1) (RModify (mkMod (Some ("Name", Some 1, VText "q")) None None))
+  = ([mset FNames [VText "a"; VText "q"; VText "c"] ex_key; ex_other], Success).
+Proof. vm_compute. reflexivity. Qed.
+
+Example ex_delete_1x_shifts :
+  step (1, 0) "alice" ex_store (Some 1) (RDelete (mkDel (Some "Name") (Some 0) None None))
+  = ([mset FNames [VText "b"; VText "c"] ex_key; ex_other], Success).
+Proof. vm_compute. reflexivity. Qed.
+
+Example ex_modify_20_by_current_value :
+  step (2, 0) "alice" ex_store (Some 1) (RModify (mkMod None (Some (VText "g1")) (Some (Some "Object Group", VText "G"))))
+  = ([mset FGroups [VText "g0"; VText "G"] ex_key; ex_other], Success).
+Proof. vm_compute. reflexivity. Qed.
+
+Example ex_delete_20_reference_clears :
+  step (2, 0) "alice" ex_store (Some 1) (RDelete (mkDel None None None (Some "Application Specific Information")))
+  = ([mset FAsi [] ex_key; ex_other], Success).
+Proof. vm_compute. reflexivity. Qed.
+
+Example ex_set_sensitive :
+  step (2, 0) "alice" ex_store (Some 1) (RSet (Some (Some "Sensitive", VBool true)))
+  = ([sset SSens (VBool true) ex_key; ex_other], Success).
+Proof. vm_compute. reflexivity. Qed.
+
+(* the single-valued overwrite rule: a set Sensitive flag cannot be cleared again (fails, changes nothing) *)
+Example ex_sensitive_cannot_be_cleared :
+  step (2, 0) "bob" ex_store (Some 2) (RSet (Some (Some "Sensitive", VBool false))) = (ex_store, Failed RInvalidField).
+Proof. vm_compute. reflexivity. Qed.
+
+Example ex_protected_refused :
+  map (fun n => snd (step (1, 4) "alice" ex_store (Some 1) (RModify (mkMod (Some (n, None, VText "public")) None None))))
+      ["Operation Policy Name"; "State"; "Cryptographic Usage Mask"; "Unique Identifier"]
+  = [Failed RPermissionDenied; Failed RPermissionDenied; Failed RPermissionDenied; Failed RPermissionDenied].
+Proof. vm_compute. reflexivity. Qed.
+
+Example ex_negative_index_refused :
+  step (1, 2) "alice" ex_store (Some 1) (RDelete (mkDel (Some "Name") (Some (-1)) None None)) = (ex_store, Failed RItemNotFound).
+Proof. vm_compute. reflexivity. Qed.
+
+Example ex_all_failed_history :
+  all_failed ex_store [EvAttr (1, 2) "bob" (Some 1) (RDelete (mkDel (Some "Name") None None None));
+                       EvAttr (2, 0) "alice" (Some 1) (RSet (Some (Some "State", VInt 2)))].
+Proof. simpl. split; [eexists; vm_compute; reflexivity|]. split; [eexists; vm_compute; reflexivity|exact I]. Qed.
